@@ -110,4 +110,9 @@ FIXED_BY_SUBJECT = {
    ('C01', 'a REAL type asking for base 8/16 (binEncBase) with a negative exponent not divisible by 3 (4) and a mantissa beyond 2**53 decoded to a different number: e.g. binEncBase=8, (-835794846692677909421, 2, -2)')],
  "fix: float(), repr() and comparisons of a REAL with a huge exponent built the full power first": [
    ('C08', 'decoding 30 0a 09 08 83 05 7f ff ff ff ff 01 against SEQUENCE (SIZE (2..3)) OF REAL kept one decoder call busy for minutes to hours: the constraint error message prints the REAL, which built 2 ** (2 ** 39) first (found by the C10 thorough tier as a shard that never came back; now decided by the CPU-time guard and the huge-REAL inputs of C08)')],
+ "fix: encoding a SEQUENCE/SET value instantiated its absent OPTIONAL and DEFAULT components": [
+   ('C12', 'encode() changed the value it was given: absent DEFAULT members appeared in prettyPrint(), == against an equal never-encoded value raised, an absent OPTIONAL record without mandatory members became present-and-empty; later calls on the same object differed from the same calls on a fresh one (found by running the repository tests under the C12 contracts; the C12 generator never left DEFAULT members absent)'),
+   ('C01', 'BER wrote an absent OPTIONAL SEQUENCE/SET without mandatory members as present-and-empty: SEQUENCE { f0 SEQUENCE { g INTEGER OPTIONAL } OPTIONAL } with f0 absent encoded as 30 02 30 00'),
+   ('C03', 'same BER output read by the reference as a different abstract value'),
+   ('C17', 'the value object gained a present-and-empty component the Python tree lacks; native round trip returned an extra empty member')],
 }
